@@ -714,21 +714,24 @@ PPL::Grid::relation_with(const Constraint& c) const {
           }
           break;
         }
-        // Not the first point: convert `g' to be a parameter
-        // and fall through into the parameter case.
-        Grid_Generator& gen = const_cast<Grid_Generator&>(g);
+        // Not the first point: consider the direction from the first
+        // point to `g' (computed on a copy: this is a const method and
+        // the generator system must not be modified).
+        Grid_Generator gen(g);
         const Grid_Generator& point = *first_point;
         const Coefficient& p_div = point.divisor();
-        const Coefficient& g_div = gen.divisor();
+        const Coefficient& g_div = g.divisor();
         gen.expr.linear_combine(point.expr, p_div, -g_div,
                                 1, gen.expr.space_dimension());
-        gen.expr.set_inhomogeneous_term(g_div * p_div);
-        gen.strong_normalize();
-        gen.set_is_parameter();
-        PPL_ASSERT(gen.OK());
+        gen.expr.set_inhomogeneous_term(Coefficient_zero());
+        const int sign = c.is_strict_inequality()
+          ? Scalar_Products::reduced_sign(c.expr, gen.expr)
+          : Scalar_Products::sign(c.expr, gen.expr);
+        if (sign != 0) {
+          return Poly_Con_Relation::strictly_intersects();
+        }
       }
-      FALLTHROUGH;
-      // Fall through.
+      break;
 
     case Grid_Generator::PARAMETER:
     case Grid_Generator::LINE:
